@@ -40,8 +40,9 @@ def run_case(case):
 def configs(tier):
     out = []
 
-    def add(d, lmin, lmax, version, reb, bnd, D, s, towards=None, a=None, b=None):
+    def add(d, lmin, lmax, version, reb, bnd, D, s, towards=None, a=None, b=None, **opts):
         c = {"d": d, "lmin": lmin, "lmax": lmax, "version": version, "rebalancing": reb, "boundary": bnd, "s": s}
+        c.update(opts)
         if towards:
             c["towards"] = towards
         if a is not None:
@@ -63,6 +64,12 @@ def configs(tier):
             add(3, 1, 2, 6, reb, True, 2, 1)
         add(3, 1, 3, 6, True, False, 1, 1)
         add(3, 2, 3, 6, False, True, 1, 1)        # d = 3 together with lmin = 2
+        # rarely used public constructor options: no adaptive extension of the scheme, Chebyshev-distributed initial points (unit
+        # cube: the option is only defined there), volume-weighted error estimates
+        for opt in ({"dim_adaptive": False}, {"chebyshev_points": True}, {"use_volume_weighting": True}):
+            add(2, 1, 2, 6, True, True, 2, 1, **opt)
+            add(2, 1, 3, 6, False, True, 2, 1, **opt)
+            add(2, 1, 2, 6, False, False, 3, 1, towards=T2, **opt)
         # the alternative coarsening versions started from lmin = 2 (components at the minimum level are coarsened below it there)
         for version in (2, 3):
             add(2, 2, 3, version, False, True, 5, 1, towards=[[0.3, 0.3]])
@@ -104,7 +111,8 @@ def main(ctx):
     for config, D in configs(ctx.tier):
         tag = "d%d_l%d%d_v%d_reb%d_bnd%d_D%d_s%d%s" % (config["d"], config["lmin"], config["lmax"], config["version"],
                                                       config["rebalancing"], config["boundary"], D, config["s"],
-                                                      ("_towards" if config.get("towards") else "") + ("_far" if config.get("a") else ""))
+                                                      ("_towards" if config.get("towards") else "") + ("_far" if config.get("a") else "")) + \
+            "".join("_%s%d" % (k, bool(v)) for k, v in sorted(config.items()) if k in ("dim_adaptive", "chebyshev_points", "use_volume_weighting"))
         st = core.bfs(ctx, config, D, tag=tag)
         ctx.bounds[tag] = st
     return ctx.finish(
